@@ -99,6 +99,35 @@ impl IntoIterator for Map<String, Value> {
 }
 #[verifier::external]
 impl Iterator for MapIntoIter { type Item = (String, Value); fn next(&mut self) -> Option<(String, Value)> { unimplemented!() } }
+// API that only occurs inside outlined (external_body) fragments: type-checked by rustc, invisible to Verus
+#[verifier::external]
+impl Value { pub fn as_object_mut(&mut self) -> Option<&mut Map<String, Value>> { unimplemented!() } pub fn as_array_mut(&mut self) -> Option<&mut Vec<Value>> { unimplemented!() } }
+#[verifier::external]
+pub struct Entry<'a> { _m: &'a mut Map<String, Value> }
+#[verifier::external]
+impl<'a> Entry<'a> { pub fn or_insert_with<F: FnOnce() -> Value>(self, _f: F) -> &'a mut Value { unimplemented!() } pub fn or_insert(self, _v: Value) -> &'a mut Value { unimplemented!() } }
+#[verifier::external]
+impl Map<String, Value> {
+    pub fn entry<S: Into<String>>(&mut self, _k: S) -> Entry<'_> { unimplemented!() }
+    pub fn shift_remove_entry(&mut self, _k: &str) -> Option<(String, Value)> { unimplemented!() }
+    pub fn remove(&mut self, _k: &str) -> Option<Value> { unimplemented!() }
+    pub fn keys(&self) -> std::vec::IntoIter<&String> { unimplemented!() }
+    pub fn values(&self) -> std::vec::IntoIter<&Value> { unimplemented!() }
+}
+impl Default for Map<String, Value> {
+    #[verifier::external_body]
+    fn default() -> (r: Self) ensures r@.len() == 0, r.entries@.len() == 0 { unimplemented!() }
+}
+impl Map<String, Value> {
+    // IndexMap::append: every entry of `other` is inserted (replacing in place or appended), `other` is left empty
+    #[verifier::external_body]
+    pub fn append(&mut self, other: &mut Map<String, Value>)
+        ensures final(self)@ == j_append(old(self)@, old(other)@), final(other)@.len() == 0, final(other).entries@.len() == 0,
+    { unimplemented!() }
+}
+pub open spec fn j_append(a: Seq<(Seq<char>, J)>, b: Seq<(Seq<char>, J)>) -> Seq<(Seq<char>, J)> decreases b.len() {
+    if b.len() == 0 { a } else { j_insert(j_append(a, b.drop_last()), b.last().0, b.last().1) }
+}
 impl Clone for Map<String, Value> {
     #[verifier::external_body]
     fn clone(&self) -> (r: Self) ensures r == *self { unimplemented!() }
@@ -202,6 +231,18 @@ impl<V> HashMap<String, V> {
         ensures r.is_some() == self@.contains_key(k@), r.is_some() ==> *r.unwrap() == self@[k@]
     { unimplemented!() }
 }
+impl<V> HashMap<String, V> {
+    #[verifier::external_body]
+    pub fn iter(&self) -> (r: std::slice::Iter<'_, (String, V)>)
+        ensures
+            vstd::std_specs::iter::IteratorSpec::obeys_prophetic_iter_laws(&r),
+            vstd::std_specs::iter::IteratorSpec::decrease(&r) is Some,
+    { unimplemented!() }
+}
+impl<V: Clone> Clone for HashMap<String, V> {
+    #[verifier::external_body]
+    fn clone(&self) -> (r: Self) ensures r@ == self@ { unimplemented!() }
+}
 impl<'k, V> HashMap<&'k str, V> {
     pub uninterp spec fn view(&self) -> vstd::map::Map<Seq<char>, V>;
     #[verifier::external_body]
@@ -278,6 +319,7 @@ pub broadcast axiom fn axiom_string_str_obeys()
 }
 use shim::*;
 use shim::{Map, HashMap, Value};
+use serde_json::{ToJ, FromJ, FromText, FromBytes};
 pub mod serde_json {
     use vstd::prelude::*;
     pub use crate::shim::{Map, Value, J};
@@ -290,6 +332,17 @@ pub mod serde_json {
     #[verifier::external]
     impl core::fmt::Display for SerdeError { fn fmt(&self, _f: &mut core::fmt::Formatter<'_>) -> core::fmt::Result { unimplemented!() } }
     pub trait FromJ: Sized { spec fn from_j(j: J) -> Option<Self>; }
+    pub trait ToJ { spec fn to_j(&self) -> J; }
+    pub uninterp spec fn ser_text(j: J) -> Seq<char>;          // serde_json's compact text of a JSON value (A-JSON)
+    #[verifier::external_body]
+    pub fn to_string<T: ToJ>(v: &T) -> (r: Result<String, SerdeError>)
+        ensures r is Ok ==> r->Ok_0@ == ser_text(v.to_j())
+    { unimplemented!() }
+    pub trait FromText: Sized { spec fn text_parses(s: Seq<char>) -> bool; spec fn text_parsed_as(s: Seq<char>, x: Self) -> bool; }
+    #[verifier::external_body]
+    pub fn from_str<T: FromText>(s: &str) -> (r: Result<T, SerdeError>)
+        ensures r is Ok <==> T::text_parses(s@), r is Ok ==> T::text_parsed_as(s@, r->Ok_0),
+    { unimplemented!() }
     pub trait FromBytes: Sized { spec fn parsed_as(b: Seq<u8>, x: Self) -> bool; spec fn parses(b: Seq<u8>) -> bool; }
     #[verifier::external_body]
     pub fn from_slice<T: FromBytes>(v: &[u8]) -> (r: Result<T, SerdeError>)
